@@ -217,6 +217,20 @@ def run_case(case):
         verify(otrie.root_hash, k, proof, omodel.get(k, b""), "foreign-root-own-nodes",
                withheld=False)
         verify(keccak(b"r" + k), k, proof, None, "random-root")
+        # a hashed child withheld as a node and its rlp spliced into the parent's pointer field instead (a pointer that is
+        # neither empty, nor 32 bytes, nor an embedded list belongs to no trie node); the root is the forged node's hash
+        # (only for an extension parent: validate_is_node refuses a branch whose child is a byte string of another length
+        # with ValidationError — such a node is not well-formed by the library's own standard, which is C18's subject)
+        if len(proof) >= 2 and len(proof[0]) == 2 and len(rlp.encode(proof[1])) >= 32:
+            child_hash = keccak(rlp.encode(proof[1]))
+            for variant in ("spliced-pointer", "spliced-pointer-altered"):
+                child = proof[1] if variant == "spliced-pointer" else alter(rng, proof[1])
+                body = rlp.encode(child)
+                if len(body) < 32:
+                    continue
+                forged = [body if (isinstance(x, bytes) and x == child_hash) else x for x in proof[0]]
+                if forged != list(proof[0]):
+                    verify(keccak(rlp.encode(forged)), k, [forged] + proof[2:], None, variant)
         verify(root, k, [], truth, "empty", withheld=bool(proof))
     res.nontrivial = len(model) >= 2
     res.state_key = common.sha(sorted((k.hex(), v.hex()) for k, v in model.items()))
